@@ -145,6 +145,7 @@ var appName = istructs.AppQName_test1_app1
 type rig struct {
 	sp      istorage.IAppStorageProvider
 	app     istructs.IAppStructs
+	reader  istructs.IAppStructs // a second instance that never sees the event objects: its log reads always decode the stored bytes
 	cleanup func()
 }
 
@@ -174,7 +175,25 @@ func newRig(backend string) (*rig, error) {
 		cleanup()
 		return nil, err
 	}
+	r.reader, r.app = r.app, nil
+	if err := r.restart(); err != nil {
+		cleanup()
+		return nil, err
+	}
+	r.reader, r.app = r.app, r.reader
 	return r, nil
+}
+
+// readLogged decodes one stored PLog event through the reader instance
+func (r *rig) readLogged(partition istructs.PartitionID, offset istructs.Offset) (ev istructs.IPLogEvent, err error) {
+	err = r.reader.Events().ReadPLog(context.Background(), partition, offset, 1, func(_ istructs.Offset, e istructs.IPLogEvent) error {
+		ev = e
+		return nil
+	})
+	if err == nil && ev == nil {
+		err = fmt.Errorf("plog event %d not found by the reader", offset)
+	}
+	return ev, err
 }
 
 // restart: a new app-structs provider (fresh configuration, empty PLog cache) over the same storage,
